@@ -210,6 +210,16 @@ def judge_circuit(d, combos_mode, tier, res, only=None, only_div=None, ladder=Fa
             U = np.array([fns[sid](t) for sid in pub])
             try:
                 sol = TransientSolution(circuit=circ, tin=t, input=fns)
+                # powers are asked for FIRST and handed to the caller (who may do with them what it likes): every later query
+                # on the same solution object must be unaffected
+                powers = {}
+                for i in ids:
+                    tp_, p_ = sol.get_power(i)
+                    powers[i] = np.array(p_, dtype=float)
+                    try:
+                        np.asarray(p_)[...] = 0.0
+                    except (ValueError, TypeError):
+                        pass
                 Y = {}
                 for nd in nodes:
                     Y[("p", nd)] = np.asarray(sol.get_potential(nd)[1], float)
@@ -237,6 +247,14 @@ def judge_circuit(d, combos_mode, tier, res, only=None, only_div=None, ladder=Fa
             if len(tout) != len(t) or np.abs(tout - t).max() > 1e-12 * t[-1]:
                 add_violation(res, "exact_pwl_response", case, "output grid = input grid", [len(tout), len(t)], "time axis changed")
                 continue
+            bump(res["hits"], "power_then_queries")
+            for i in ids:
+                pv = Y[("v", i)] * Y[("i", i)]
+                if np.abs(powers[i] - pv).max() > 1e-8 * max(sv * si, 1e-300):
+                    add_violation(res, "exact_pwl_response", dict(case, element=i), "p = v*i", float(np.abs(powers[i] - pv).max()),
+                                  "power of %s reported before the other queries is not the product of the voltage and current reported afterwards" % i)
+                    bad = True
+                    break
             # (a) starts from rest
             bump(res["hits"], "starts_from_rest")
             for c in caps:
